@@ -45,6 +45,10 @@ CHECKS = {
          "Histories of ingest / force_flush (and restart) under every compaction factor, sub-partition size, io_threads and wal_flush_compaction_threads, plus a family where max_wal_size_bytes is tiny so ingestion must wait for the background flush. After each completed force_flush the recursive directory listing must equal {meta} plus exactly the partition files the catalogue names, the accounted WAL size must be 0 and no WAL id may be unflushed; every ingestion must return within the deadline.",
          "DESIGN.md 4 C18", "Catalogue and WAL accounting are read through hook H4 accessors; file names are computed with the crate's own helpers re-exported by hook H3; observations that overlap a background flush are retried.",
          "model-based property-based testing with proptest; validity predicate over the directory listing (invariant oracle)"),
+ "C11": ("exploration",
+         "Generated request sequences mixing valid requests (queries, ingestion, force_flush, table_stats, mem_tree, restart) with a catalogue of failing ones (parse errors, type errors, unsupported constructs, overflow, unknown table, LIMIT/OFFSET edge cases, invalid regex, constant-only select items, queries that panic inside the engine), issued from 1-3 client threads against 1-4 workers, memory-only and on disk. Every call must return within the deadline; after every request a canary (model-checked counts, a tiny ingest, table_stats) must succeed, and at the end workers+1 concurrent queries, an ingest and a force_flush must complete.",
+         "DESIGN.md 4 C11", "Schedules are whatever the OS produces for the client threads (no schedule control): interleavings inside the engine are sampled, not enumerated. A hang is judged by the call deadline plus a process-quiescence test.",
+         "property-based testing (proptest) over request sequences with fault-style inputs; canary invariant oracle"),
 }
 
 NOT_YET = {
